@@ -7,6 +7,7 @@ package faultdb
 import (
 	"bytes"
 	"fmt"
+	"sort"
 	"sync"
 
 	"github.com/dominant-strategies/go-quai/common"
@@ -20,8 +21,12 @@ type Op struct {
 	Class string  `json:"class"`
 	Keys []string `json:"keys,omitempty"` // key classes inside a batch
 	N    int      `json:"n"`
+	DB   string   `json:"db,omitempty"` // name of the database (WrapNamed) -- several databases may share one Ctl
+	gen  int
 }
 
+// Ctl is the "process": one write counter shared by every database wrapped with it.  After the limit
+// every database silently drops its writes (the process is dead).
 type Ctl struct {
 	mu     sync.Mutex
 	armed  bool
@@ -29,18 +34,59 @@ type Ctl struct {
 	count  int
 	frozen bool
 	Ops    []Op
+	// Dropped is the first write operation that did NOT reach its database after the limit was hit.
+	Dropped *Op
+	// SizeFactor > 1 makes every batch report ValueSize() multiplied by it, so that size-triggered flush
+	// points (`if batch.ValueSize() > ethdb.IdealBatchSize { batch.Write(); batch.Reset() }`) of the code under
+	// test fire on small blocks.
+	SizeFactor int
+	// gen is the current process incarnation: wrappers remember the incarnation they were created in, and
+	// writes issued through a wrapper of an earlier incarnation (shutdown code of an abandoned core, its
+	// timers) are dropped without being counted -- a crashed process writes nothing.
+	gen int
 }
 
 func (c *Ctl) Arm(limit int) {
 	c.mu.Lock()
 	defer c.mu.Unlock()
-	c.armed, c.limit, c.count, c.frozen, c.Ops = true, limit, 0, false, nil
+	c.armed, c.limit, c.count, c.frozen, c.Ops, c.Dropped = true, limit, 0, false, nil, nil
+}
+
+// NewGeneration starts a new process incarnation: call it before wrapping the databases of a restarted node.
+func (c *Ctl) NewGeneration() {
+	c.mu.Lock()
+	defer c.mu.Unlock()
+	c.gen++
+}
+
+func (c *Ctl) sizeFactor() int {
+	c.mu.Lock()
+	defer c.mu.Unlock()
+	return c.SizeFactor
+}
+
+// SetSizeFactor sets SizeFactor under the lock.
+func (c *Ctl) SetSizeFactor(f int) {
+	c.mu.Lock()
+	defer c.mu.Unlock()
+	c.SizeFactor = f
 }
 func (c *Ctl) Disarm() {
 	c.mu.Lock()
 	defer c.mu.Unlock()
 	c.armed = false
 	c.frozen = false
+}
+// Seen returns the write operations that reached the databases since Arm and the first one that did not (nil if none).
+func (c *Ctl) Seen() ([]Op, *Op) {
+	c.mu.Lock()
+	defer c.mu.Unlock()
+	ops := append([]Op{}, c.Ops...)
+	if c.Dropped == nil {
+		return ops, nil
+	}
+	d := *c.Dropped
+	return ops, &d
 }
 func (c *Ctl) Frozen() bool { c.mu.Lock(); defer c.mu.Unlock(); return c.frozen }
 func (c *Ctl) Count() int   { c.mu.Lock(); defer c.mu.Unlock(); return c.count }
@@ -49,6 +95,9 @@ func (c *Ctl) Count() int   { c.mu.Lock(); defer c.mu.Unlock(); return c.count }
 func (c *Ctl) step(op Op) bool {
 	c.mu.Lock()
 	defer c.mu.Unlock()
+	if op.gen != c.gen {
+		return false // a write of an abandoned (crashed) incarnation
+	}
 	if c.frozen {
 		return false
 	}
@@ -57,6 +106,8 @@ func (c *Ctl) step(op Op) bool {
 	}
 	if c.limit >= 0 && c.count >= c.limit {
 		c.frozen = true
+		d := op
+		c.Dropped = &d
 		return false
 	}
 	c.count++
@@ -92,6 +143,26 @@ func KeyClass(k []byte) string {
 		return "trienode"
 	case bytes.HasPrefix(k, []byte("ph")), bytes.HasPrefix(k, []byte("pb")):
 		return "pendingheader"
+	case bytes.HasPrefix(k, []byte("wb")) && len(k) == 34:
+		return "body"
+	case len(k) == 33 && k[0] == 'H':
+		return "hdrnumber"
+	case len(k) == 41 && k[0] == 'h':
+		return "header"
+	case bytes.HasPrefix(k, []byte("ma")) && len(k) == 34:
+		return "manifest"
+	case bytes.HasPrefix(k, []byte("il")) && len(k) == 34:
+		return "interlink"
+	case bytes.HasPrefix(k, []byte("ie")) && len(k) == 34:
+		return "inboundetxs"
+	case bytes.HasPrefix(k, []byte("pe")) && len(k) == 34:
+		return "pendingetxs"
+	case bytes.HasPrefix(k, []byte("pr")) && len(k) == 34:
+		return "pendingetxsrollup"
+	case bytes.HasPrefix(k, []byte("tc")) && len(k) == 34:
+		return "tokenchoices"
+	case bytes.HasPrefix(k, []byte("bl")) && len(k) == 34:
+		return "bloom"
 	default:
 		if len(k) > 0 {
 			return "other-" + string(k[:1])
@@ -102,30 +173,52 @@ func KeyClass(k []byte) string {
 
 type DB struct {
 	ethdb.Database
-	C *Ctl
+	C    *Ctl
+	Name string
+	gen  int
 }
 
-func Wrap(db ethdb.Database, c *Ctl) *DB { return &DB{Database: db, C: c} }
+func Wrap(db ethdb.Database, c *Ctl) *DB { return WrapNamed(db, c, "") }
+
+// WrapNamed wraps db; name is recorded in every Op (several databases sharing one Ctl = one process).
+func WrapNamed(db ethdb.Database, c *Ctl, name string) *DB {
+	c.mu.Lock()
+	g := c.gen
+	c.mu.Unlock()
+	return &DB{Database: db, C: c, Name: name, gen: g}
+}
 
 func (d *DB) Put(k, v []byte) error {
-	if d.C.step(Op{Kind: "put", Class: KeyClass(k)}) {
+	if d.C.step(Op{Kind: "put", Class: KeyClass(k), DB: d.Name, gen: d.gen}) {
 		return d.Database.Put(k, v)
 	}
 	return nil
 }
 func (d *DB) Delete(k []byte) error {
-	if d.C.step(Op{Kind: "delete", Class: KeyClass(k)}) {
+	if d.C.step(Op{Kind: "delete", Class: KeyClass(k), DB: d.Name, gen: d.gen}) {
 		return d.Database.Delete(k)
 	}
 	return nil
 }
-func (d *DB) NewBatch() ethdb.Batch { return &batch{Batch: d.Database.NewBatch(), c: d.C} }
+func (d *DB) NewBatch() ethdb.Batch {
+	return &batch{Batch: d.Database.NewBatch(), c: d.C, db: d.Name, gen: d.gen}
+}
 
 type batch struct {
 	ethdb.Batch
 	c    *Ctl
 	keys map[string]int
 	n    int
+	db   string
+	gen  int
+}
+
+// ValueSize is what size-triggered flush idioms consult; see Ctl.SizeFactor.
+func (b *batch) ValueSize() int {
+	if f := b.c.sizeFactor(); f > 1 {
+		return b.Batch.ValueSize() * f
+	}
+	return b.Batch.ValueSize()
 }
 
 func (b *batch) Put(k, v []byte) error {
@@ -170,7 +263,8 @@ func (b *batch) Write() error {
 	case b.keys["trienode"] > 0 && len(b.keys) == 1:
 		class = "triebatch"
 	}
-	if b.c.step(Op{Kind: "batch", Class: class, Keys: ks}) {
+	sort.Strings(ks)
+	if b.c.step(Op{Kind: "batch", Class: class, Keys: ks, DB: b.db, gen: b.gen}) {
 		return b.Batch.Write()
 	}
 	return nil
